@@ -122,12 +122,14 @@ package goja
 
 //@ func propGetter
 //@   props C04
+//@   maypanic
 //@   requires v != nil
 //@   ensures result == specFuncOf(v) [func-or-nil]
 //@   assigns nothing
 
 //@ func propSetter
 //@   props C04
+//@   maypanic
 //@   requires v != nil
 //@   ensures result == specFuncOf(v) [func-or-nil]
 //@   assigns nothing
@@ -140,6 +142,10 @@ package goja
 //@   ensures ok == old(specValidate(o.extensible, descr, specExistingOf(existingValue))) [accept-eq]
 //@   ensures ok ==> specExistingOf(val) == old(specApply(descr, specExistingOf(existingValue))) [apply-eq]
 //@   ensures ok ==> specExistingWF(val) [wf-preserved]
+// A definition that ends in a TypeError (rejected, or a getter/setter that is not callable) has not
+// touched the existing property record.
+//@   ensures_abrupt specExistingOf(existingValue) == old(specExistingOf(existingValue)) [a-failed-definition-leaves-the-property-unchanged]
+//@   ensures !ok ==> specExistingOf(existingValue) == old(specExistingOf(existingValue)) [a-rejected-definition-leaves-the-property-unchanged]
 
 // assertCallable only hands out the call function; every implementation is checked to modify nothing.
 //@ iface objectImpl.assertCallable
